@@ -107,6 +107,45 @@ def run_trace(reg, obj0, steps):
     return None, [], {}
 
 
+def random_trace_search(reg, cc, rng, n_traces, max_steps=120, only_unit=None):
+    """Random API-level histories on a fresh real object, every call checked natively against its
+    own contract.  Returns a record for the first contract failure, or None."""
+    from . import native
+    checked = 0
+    for _ in range(n_traces):
+        try:
+            obj0, stepper = cc.random_trace(rng)
+        except Exception:
+            continue
+        try:
+            start = copy.deepcopy(obj0)
+        except Exception:
+            start = None
+        steps = []
+        for i in range(max_steps):
+            try:
+                st = stepper(obj0, i)
+            except Exception:
+                break
+            if st is None:
+                break
+            q, kw = st
+            steps.append((q, copy.deepcopy(kw)))
+            fails, info = native.native_check(reg.fns[q], reg, dict(self=obj0, **kw))
+            checked += 1
+            if fails:
+                return dict(verdict='reproduced-by-search', native_failures=fails, info=info,
+                            unit=q,
+                            inputs=dict(start=native.describe_native(start),
+                                        calls=[(a.split('.')[-1], native.describe_native(b))
+                                               for a, b in steps]),
+                            trace_pickle_b64=base64.b64encode(
+                                pickle.dumps((start, steps))).decode()), checked
+            if fails is None:
+                break
+    return None, checked
+
+
 def replay_via_trace(reg, c, cc, raw, rec):
     """Counter-model of a method obligation: rebuild the receiver through the public API, checking
     every step; then the offending call itself."""
@@ -164,6 +203,15 @@ def replay_function(reg, c, oname, raw, search=True):
                 if fails is not None else info.get('skipped')
         else:
             rec['why_not'] = why
+    if search and cc is not None and cc.random_trace is not None and not c.is_init:
+        rng = random.Random(_OPTS.get('seed', 0))
+        hit, _n = random_trace_search(reg, cc, rng, _OPTS.get('search_samples', 3000) // 10)
+        if hit is not None:
+            why = rec.get('why_not')
+            rec.update(hit)
+            if why:
+                rec['model_replay'] = why
+            return rec
     if search:
         rng = random.Random(_OPTS.get('seed', 0))
         n = _OPTS.get('search_samples', 3000)
@@ -216,6 +264,22 @@ def replay_lemma(reg, lem, oname, raw):
     return rec
 
 
+def trace_fuzz(job):
+    qual, n, seed = job
+    reg = _REG
+    cc = reg.classes_by_name[qual]
+    rng = random.Random(seed)
+    hit, checked = random_trace_search(reg, cc, rng, n)
+    out = dict(name=f'{qual} (random API histories)', runs=checked, skipped=0, failures=[],
+               distinct=0)
+    if hit is not None:
+        out['name'] = hit['unit']
+        out['failures'].append(dict(failures=hit['native_failures'], inputs=hit['inputs'],
+                                    info=hit['info'], args_pickle_b64=None,
+                                    trace_pickle_b64=hit['trace_pickle_b64']))
+    return out
+
+
 def fuzz_unit(job):
     """Bounded stand-in / cross-check: run the real function under its contract natively on random
     in-shape inputs.  Returns dict(name, runs, skipped, failures[...])."""
@@ -226,12 +290,18 @@ def fuzz_unit(job):
     rng = random.Random(seed)
     out = dict(name=name, runs=0, skipped=0, failures=[], distinct=0)
     seen = set()
+    cc = reg.class_contract_of(c)
     for _ in range(n):
         try:
             args = native.sample_args(c, reg, rng)
         except Exception as e:
-            out['error'] = f'sampler: {e!r}'
-            break
+            # the sampler drives the real code to build a reachable state; if that raises, the
+            # state is simply not used (the trace-based stand-in checks those calls themselves)
+            out['sampler_raised'] = out.get('sampler_raised', 0) + 1
+            if cc is None or cc.random_trace is None or out['sampler_raised'] > n // 2:
+                out['error'] = f'sampler: {e!r}'
+                break
+            continue
         if args is None:
             out['error'] = 'no sampler'
             break
@@ -350,6 +420,19 @@ def run_property(pid, tier='quick', seed=0, extra_checks=None, modules=None, job
         fuzz_jobs = [(u[1], n_fuzz, seed + i) for i, u in enumerate(sorted(results))
                      if u[0] == 'function']
         fuzz = list(ex.map(fuzz_unit, fuzz_jobs))
+        # API-level random histories, each call checked against its contract (classes only)
+        tr_jobs = []
+        seen_cls = set()
+        for u in sorted(results):
+            if u[0] != 'function':
+                continue
+            cc = reg.class_contract_of(reg.fns[u[1]])
+            if cc is not None and cc.random_trace is not None and cc.qualname not in seen_cls:
+                seen_cls.add(cc.qualname)
+                for k in range(4):
+                    tr_jobs.append((cc.qualname, (400 if tier == 'thorough' else 12), seed * 7 + k))
+        for r in ex.map(trace_fuzz, tr_jobs):
+            fuzz.append(r)
         # cvc5 confirmation of discharged obligations (thorough: all, quick: a sample)
         cv_jobs = []
         for u, d in results.items():
@@ -465,7 +548,8 @@ def finish(pid, tier, seed, reg, results, fuzz, cvc5_res, extra, t_start):
                        found_by='run-time contract check on random inputs (bounded stand-in)',
                        replay=dict(verdict='reproduced', native_failures=fl['failures'],
                                    inputs=fl['inputs'], info=fl['info'],
-                                   args_pickle_b64=fl['args_pickle_b64'])),
+                                   args_pickle_b64=fl.get('args_pickle_b64'),
+                                   trace_pickle_b64=fl.get('trace_pickle_b64'))),
                   open(path, 'w'), indent=1, default=str)
         lines.append(f'VIOLATION property={pid} replay={path}')
         vio_out.append(dict(obligation=oname, verdict='reproduced (run-time contract)', replay=path))
@@ -508,7 +592,7 @@ def finish(pid, tier, seed, reg, results, fuzz, cvc5_res, extra, t_start):
                                     other={n: r for n, r in cvc5_res.items() if r != 'unsat'}),
             bounded=dict(kind='run-time contract check of the real functions on random in-shape '
                               'inputs (bounded stand-in / cross-check; never counted as proved)',
-                         runs=fuzz_runs, per_function={fz['name']: fz['runs'] for fz in fuzz},
+                         runs=fuzz_runs, per_function={fz['name']: fz['runs'] for fz in fuzz if fz['runs']},
                          failures=len(fuzz_fail)),
             extra=[{k: v for k, v in e.items() if k not in ('lines', 'violations')} for e in extra],
             undecided=[dict(unit=a, obligation=b, reason=c) for a, b, c in undecided],
